@@ -39,8 +39,14 @@ def run_hist(ctx, mode, n_quick, n_thorough, shards=6):
                 cov["stats"][k] = cov["stats"].get(k, 0) + v
         for m in r["mismatches"]:
             c = m.pop("case", None)
+            # a difference in the ORDER / NUMBER of cache operations with identical results is a broken correspondence (the code
+            # no longer is the program the theorem is about), not an input on which the property fails: it is reported only
+            # when no result differs anywhere in this run, and then as "no failing input found" (see check.py: deferred)
+            events_only = m.get("class") in ("events", "cache-key")
             viol.append({"what": f"{mode}: {json.dumps(m)[:400]}",
                          "identity": mode + ":" + json.dumps(m, sort_keys=True)[:300],
+                         "no_input": events_only,
                          "replay_payload": {"property": ctx["pid"], "mismatch": m, "case": c,
+                                            **({"no_longer_checks": "correspondence: cache-event trace of the library = trace of the model program (EngineProg.run_traced)"} if events_only else {}),
                                             "how_to_replay": f"tools/hist_x.py --mode {mode} with this case (seed/index inside)"}})
     return cov, viol
